@@ -656,9 +656,98 @@ def rule_h11(F):
     return r
 
 
+def rule_h12(F):
+    """Machine code is released after the last handle referring to it - EVERY kind of handle: a raw address of finalized code
+    (`get_finalized_function`) is only ever stored in a value that also owns the shared module data.  (A second handle type - the
+    test cases handed out by `get_tests` - that keeps the bare pointer 'because tests always have the same signature' can be
+    collected, outlive the package and jump into freed memory.)  Forward data-flow from every call of get_finalized_function to
+    the aggregates its result is put into."""
+    r = RuleResult("C11.H12", "every value that stores the address of finalized code also owns the shared module data", floor=1)
+    n = 0
+    for b in F.all_bodies():
+        if not b.mir or "::tests::" in b.path or not b.path.startswith("codegen"):
+            continue
+        srcs = [t["dest"][0] for bi, t in mir.calls(b) if hir.last(mir.callee_def(t) or "") == "get_finalized_function" and t.get("dest")]
+        # .. or an accessor of the module data that returns it
+        for bi, t in mir.calls(b):
+            c = mir.callee(t) or ""
+            if c.startswith("codegen::") and F.has(c) and t.get("dest") and "*const u8" in str(F.body(c).mir["locals"][0].get("ty") if F.body(c).mir else ""):
+                if any(hir.last(mir.callee_def(t2) or "") == "get_finalized_function" for _, t2 in mir.calls(F.body(c))):
+                    srcs.append(t["dest"][0])
+        if not srcs:
+            continue
+        tainted = set(srcs)
+        changed = True
+        sinks = []
+        while changed:
+            changed = False
+            for bi, blk in enumerate(b.blocks):
+                for st in blk["stmts"]:
+                    if st["k"] != "assign":
+                        continue
+                    hit = [l for l in mir.rv_locals(st["rv"]) if l in tainted]
+                    if not hit:
+                        continue
+                    if st["rv"]["k"] == "agg" and st["rv"].get("ak") == "adt":
+                        sinks.append((st["rv"].get("adt"), st.get("line")))
+                    if st["p"][0] not in tainted:
+                        tainted.add(st["p"][0])
+                        changed = True
+                t = blk["term"]
+                if t["k"] == "call" and t.get("dest") and t["dest"][0] not in tainted and any(mir.is_place_op(a) and a[1][0] in tainted for a in t["args"]):
+                    d_ = mir.callee_def(t) or ""
+                    if d_.startswith("std::mem::transmute") or hir.last(d_) in ("cast", "transmute", "from", "into", "new", "as_ptr", "unwrap", "expect", "ok_or_else", "branch", "map"):
+                        tainted.add(t["dest"][0])
+                        changed = True
+        for adt, ln in sorted(set(sinks), key=lambda x: str(x)):
+            if adt in ("std::result::Result", "std::option::Option", "std::ops::ControlFlow"):
+                continue
+            n += 1
+            fs = fields(F, adt) or []
+            owns = any(f["ty"] == SMD or "Arc<codegen::ModuleData>" in f["ty"] for f in fs)
+            r.inst("%s stores a code address in %s" % (hir.last(b.path), adt), {"fn": b.path, "adt": adt, "owns_module_data": owns})
+            if not owns:
+                r.bad(b.path, "code address stored in %s without the module data" % hir.last(adt or "?"), relfile(b.file), ln or b.line,
+                      "%s puts the address of finalized code into a %s, which has no field that owns the shared module data: such a value can outlive the package and every function "
+                      "handle, and calling through it jumps into freed memory (script constants and captured closure state are gone as well)" % (hir.last(b.path), adt))
+    if n == 0:
+        r.missing("a value built from the result of get_finalized_function in codegen")
+    return r
+
+
+def rule_h13(F):
+    """What compiled code refers to by absolute address lives as long as the code: the keep-alive list of the registered host
+    functions (closures with captured state, `Arc<Box<dyn Any>>`) is owned by the SHARED module data, which every handle holds -
+    not by the package-side `Module`.  Moved there, a handle that is still called after the package and the runtime are gone reads
+    freed closure state."""
+    r = RuleResult("C11.H13", "the keep-alive of registered host closures is a field of the shared ModuleData (directly or inside one of its fields)", floor=1)
+    fs = fields(F, MD)
+    if fs is None:
+        r.missing(MD)
+        return r
+
+    def holds_any(ty, depth=0):
+        if "dyn std::any::Any" in ty or "dyn core::any::Any" in ty:
+            return True
+        if depth >= 2:
+            return False
+        for a in re.findall(r"[A-Za-z_][A-Za-z0-9_:]*", ty):
+            sub = fields(F, a) if a.startswith(("codegen::", "runtime::")) else None
+            if sub and any(holds_any(f["ty"], depth + 1) for f in sub):
+                return True
+        return False
+    holders = [f["name"] for f in fs if holds_any(f["ty"])]
+    r.inst("ModuleData keeps registered closures alive", {"fields": holders})
+    if not holders:
+        r.bad(MD, "registered closures not owned by the shared module data", "src/codegen/mod.rs", 0,
+              "ModuleData has no field that owns the registered host functions (Arc<Box<dyn Any>>): the code calls them by absolute address, and a handle outliving the package and the "
+              "runtime would call a freed closure")
+    return r
+
+
 def rules(ctx):
     F = ctx["F"]
-    return [rule_h1(F), rule_h2(F), rule_h3(F), rule_h4(F), rule_h5(F), rule_h7(F), rule_h8(F), rule_h9(F), rule_h10(F), rule_h11(F)]
+    return [rule_h1(F), rule_h2(F), rule_h3(F), rule_h4(F), rule_h5(F), rule_h7(F), rule_h8(F), rule_h9(F), rule_h10(F), rule_h11(F), rule_h12(F), rule_h13(F)]
 
 
 def thorough_rules(ctx):
